@@ -342,7 +342,7 @@ _COVERS_OVERFLOW = {"OverflowError", "ArithmeticError", "Exception", "BaseExcept
 @rule(
     "C04.fpint",
     props=("C04", "C02"),
-    floor=2,
+    floor=1,
     family="GRD",
     desc="every conversion of a concrete float to an integer (int(..) of a value derived from the operand's .value) "
     "is protected for both non-finite cases: inside a try whose answering handlers cover ValueError (NaN) and "
@@ -393,4 +393,4 @@ def c04_fpint(R):
                 f"{q} converts the operand with `{norm(c)}` and nothing handles {' and '.join(missing)}: folding the "
                 f"conversion of that value raises a Python exception out of the AST constructor instead of yielding a value",
             )
-    R.need(n >= 2, "float-to-integer conversions of the concrete FP backend not found")
+    R.need(n >= 1, "float-to-integer conversions of the concrete FP backend not found")
